@@ -52,6 +52,11 @@ MUTS = {
  # ---- load-return / register-read paths (dependent-load motifs, 2026-09-26)
  'seed3-c07-last-sgpr-operand-cache-not-cleared-by-scalar-load-return': 'PATCH:/tmp/seed3-c07/SEED/patch.diff',
  'seed4-c02-emulation-lds-buffer-reused-across-work-groups-never-cleared': 'PATCH:/tmp/seed4-c02/SEED/patch.diff',
+ # ---- host-API shapes (2026-09-26)
+ 'seed5-c02-copy-through-never-launching-context-skips-flush': 'PATCH:/tmp/seed5-c02/SEED/patch.diff',
+ 'seed5-c01-emulation-translation-cache-keyed-by-virtual-page-only': 'PATCH:/tmp/seed5-c01/SEED/patch.diff',
+ 'copy-flush-decision-looks-only-at-buffers-of-the-copying-context': ('amd/driver/memorycopy.go',
+   '\t\tif c.pid == ctx.pid && c.hasDirtyBufferIn(startAddr, endAddr) {', '\t\tif c == ctx && c.hasDirtyBufferIn(startAddr, endAddr) {'),
  'vector-load-return-skips-last-dword-when-address-register-is-a-destination': ('amd/timing/cu/computeunit.go',
    '\t\taccess.LaneID = laneInfo.laneID\n',
    '\t\taccess.LaneID = laneInfo.laneID\n\t\tif inst.Dst != nil && inst.Addr != nil && inst.Dst.RegCount > 1 {\n\t\t\td, a := inst.Dst.Register.RegIndex(), inst.Addr.Register.RegIndex()\n\t\t\tif a >= d && a < d+inst.Dst.RegCount && laneInfo.reg.RegIndex() == d+inst.Dst.RegCount-1 {\n\t\t\t\tcontinue\n\t\t\t}\n\t\t}\n'),
